@@ -117,14 +117,18 @@ class SandboxNativeTracer(SandboxBasicTracer):
         self.call_stack = []
         self.lines = []
         self.old_tracer = None
+        self._old_tracers = []
         self.step_index = 1
 
     def __enter__(self):
+        # Tracers are re-entered when student code imports another student
+        # file, so previous trace functions have to be kept on a stack.
         self.old_tracer = sys.gettrace()
+        self._old_tracers.append(self.old_tracer)
         sys.settrace(self.tracer)
 
     def __exit__(self, exc_type, exc_val, traceback):
-        sys.settrace(self.old_tracer)
+        sys.settrace(self._old_tracers.pop())
 
     def is_tracked_file(self, frame):
         left = os.path.basename(frame.f_code.co_filename)
@@ -164,6 +168,7 @@ class SandboxCallTracer(SandboxBasicTracer, Bdb):
     def __init__(self):
         super().__init__()
         self.calls = {}
+        self._old_traces = []
 
     def user_call(self, frame, argument_list):
         """
@@ -181,10 +186,11 @@ class SandboxCallTracer(SandboxBasicTracer, Bdb):
     def __enter__(self):
         self.reset()
         self._old_trace = sys.gettrace()
+        self._old_traces.append(self._old_trace)
         sys.settrace(self.trace_dispatch)
 
     def __exit__(self, exc_type, exc_val, traceback):
-        sys.settrace(self._old_trace)
+        sys.settrace(self._old_traces.pop())
         self.quitting = True
         # Return true to suppress exception (if it is a BdbQuit)
         return isinstance(exc_type, BdbQuit)
